@@ -173,6 +173,7 @@ def run(tier):
     rep.extra["reachable_from"] = reach
     rep.extra["flags_without_conversion"] = sorted(set(flags) - used)
     roundtrips(rep, tier, set((a, b) for a, b, _l in pairs))
+    triangles(rep, tier, [(a, b) for a, b, _l in pairs], types)
     rep.floor("registered conversions", 30)
     rep.floor("type-level witnesses", 150)
     rep.assumptions += ["that each converter is the derivative of the target stress with respect to the target strain measure for an arbitrary "
@@ -213,3 +214,111 @@ def roundtrips(rep, tier, registered):
             rep.fail("ROUNDTRIP@%s->%s->%s" % (a, b, a), "N=%d: converting %s to %s and back changes component %d of the operator: %r instead of %r"
                      % (N, a, b, d[0], d[1], d[2]))
     rep.floor("round trips", 28)
+
+
+# triangles whose two sides differ on an arbitrary (unconstrained) symbolic operator although both sides are right on
+# every operator that is the derivative of an objective response; each entry: (A, C, B) -> reason (confirmed by reading)
+TRIANGLE_EXCEPTIONS = {
+    ("DTAU_DF", "ABAQUS", "DSIG_DF"): ("SPATIAL_MODULI", "ABAQUS moduli (6x6) keep only the response of dtau/dF (6x9) to spin-free perturbations and "
+                                       "ABAQUS -> DSIG_DF rebuilds the spin part from objectivity; on a 6x9 operator that is not objective the two "
+                                       "sides differ, so the triangle is decided on operators obtained from arbitrary spatial moduli"),
+}
+
+
+def triangles(rep, tier, pairs, types):
+    """(d) conversions compose: for every registered A->B and every C with A->C and C->B registered, the direct converter
+    and the composition through C give the same operator (exact rational normal forms, symbolic K, F0, F1, sigma)."""
+    from absint import lower_driver, Unsupported
+    from tensoralg import run_shim, syms, first_diff
+    import poly as P
+    reg = set(pairs)
+    tri = sorted((a, c, b) for (a, b) in reg for c in set(x for _a, x in reg if _a == a) if c != b and c != a and (c, b) in reg)
+    Ns = (1, 2, 3) if tier == "thorough" else (1, 2)
+    L = ['// generated by rules/C23.py from the generator-side conversion table', '#include <algorithm>', '#include "TFEL/Math/tensor.hxx"',
+         '#include "TFEL/Math/stensor.hxx"', '#include "TFEL/Math/st2tost2.hxx"', '#include "TFEL/Math/t2tost2.hxx"', '#include "TFEL/Math/t2tot2.hxx"',
+         '#include "TFEL/Material/FiniteStrainBehaviourTangentOperator.hxx"', 'using namespace tfel::material;',
+         'using TO = FiniteStrainBehaviourTangentOperatorBase;',
+         'template <TO::Flag A, TO::Flag C, TO::Flag B, unsigned short N>',
+         'static void triangle(const double* in, double* out) {',
+         '  tangent_operator<A, N, double> K;', '  const auto nk = K.size();', '  std::copy(in, in + nk, K.begin());',
+         '  tfel::math::tensor<N, double> F0, F1;', '  tfel::math::stensor<N, double> s;', '  const auto nt = F0.size();',
+         '  std::copy(in + nk, in + nk + nt, F0.begin());', '  std::copy(in + nk + nt, in + nk + 2 * nt, F1.begin());',
+         '  std::copy(in + nk + 2 * nt, in + nk + 2 * nt + s.size(), s.begin());',
+         '  const auto Kd = convert<B, A, N, double>(K, F0, F1, s);',
+         '  const auto Kc = convert<C, A, N, double>(K, F0, F1, s);',
+         '  const auto Kb = convert<B, C, N, double>(Kc, F0, F1, s);',
+         '  std::copy(Kd.begin(), Kd.end(), out);', '  std::copy(Kb.begin(), Kb.end(), out + Kd.size());', '}']
+    L += ['template <TO::Flag P, TO::Flag A, TO::Flag C, TO::Flag B, unsigned short N>',
+          'static void triangle_from(const double* in, double* out) {',
+          '  tangent_operator<P, N, double> Kp;', '  const auto nk = Kp.size();', '  std::copy(in, in + nk, Kp.begin());',
+          '  tfel::math::tensor<N, double> F0, F1;', '  tfel::math::stensor<N, double> s;', '  const auto nt = F0.size();',
+          '  std::copy(in + nk, in + nk + nt, F0.begin());', '  std::copy(in + nk + nt, in + nk + 2 * nt, F1.begin());',
+          '  std::copy(in + nk + 2 * nt, in + nk + 2 * nt + s.size(), s.begin());',
+          '  const auto K = convert<A, P, N, double>(Kp, F0, F1, s);',
+          '  const auto Kd = convert<B, A, N, double>(K, F0, F1, s);',
+          '  const auto Kc = convert<C, A, N, double>(K, F0, F1, s);',
+          '  const auto Kb = convert<B, C, N, double>(Kc, F0, F1, s);',
+          '  std::copy(Kd.begin(), Kd.end(), out);', '  std::copy(Kb.begin(), Kb.end(), out + Kd.size());', '}']
+    for (a, c, b), (p_, _r) in sorted(TRIANGLE_EXCEPTIONS.items()):
+        for N in Ns:
+            L.append('extern "C" void verif_trif_%s_%s_%s_%d(const double* in, double* out) { triangle_from<TO::%s, TO::%s, TO::%s, TO::%s, %du>(in, out); }'
+                     % (a, c, b, N, p_, a, c, b, N))
+    for a, c, b in tri:
+        for N in Ns:
+            L.append('extern "C" void verif_tri_%s_%s_%s_%d(const double* in, double* out) { triangle<TO::%s, TO::%s, TO::%s, %du>(in, out); }'
+                     % (a, c, b, N, a, c, b, N))
+    wd = os.path.join(OUT, "C23")
+    drv = os.path.join(wd, "c23_tri.cxx")
+    open(drv, "w").write("\n".join(L) + "\n")
+    P.reset_registry()
+    mod = lower_driver(drv, wd, "c23tri", opt="-O2")
+
+    def size(flag, N):
+        t = types[flag]
+        return {"t2tost2": SS[N] * TS[N], "st2tost2": SS[N] * SS[N], "t2tot2": TS[N] * TS[N]}[t]
+    undecided = []
+    for a, c, b in tri:
+        for N in Ns:
+            na, nb = size(a, N), size(b, N)
+            K, F0, F1, s = syms("k", na), syms("f", TS[N]), syms("g", TS[N]), syms("s", SS[N])
+            name = "verif_tri_%s_%s_%s_%d" % (a, c, b, N)
+            if "DT_DELOG" in (a, c, b):
+                # the logarithmic-strain converters go through an eigen-decomposition (data-dependent branches, not rational)
+                undecided.append(name)
+                continue
+            try:
+                r = run_shim(mod, name, [K + F0 + F1 + s], [2 * nb])
+            except Unsupported as e:
+                raise AnalysisBroken("%s: %s" % (name, e))
+            if len(r) != 1:
+                raise AnalysisBroken("%s: %d paths" % (name, len(r)))
+            out = r[0][1][0]
+            rep.count("composition triangles")
+            d = first_diff(out[nb:], out[:nb])
+            key = "COMPOSE@%s->%s->%s" % (a, c, b)
+            if d is None:
+                rep.ok("convert<%s,%s> = convert<%s,%s> o convert<%s,%s> (N=%d, symbolic K, F0, F1, sigma)" % (b, a, b, c, c, a, N),
+                       sample=(N == 2 and (a, c, b) == tri[0]))
+            elif (a, c, b) in TRIANGLE_EXCEPTIONS:
+                p_, why = TRIANGLE_EXCEPTIONS[(a, c, b)]
+                if (p_, a) not in reg:
+                    raise AnalysisBroken("exception %s->%s->%s: %s -> %s is not registered" % (a, c, b, p_, a))
+                Kp = syms("k", size(p_, N))
+                r2 = run_shim(mod, "verif_trif_%s_%s_%s_%d" % (a, c, b, N), [Kp + F0 + F1 + s], [2 * nb])
+                if len(r2) != 1:
+                    raise AnalysisBroken("verif_trif_%s_%s_%s_%d: %d paths" % (a, c, b, N, len(r2)))
+                o2 = r2[0][1][0]
+                d2 = first_diff(o2[nb:], o2[:nb])
+                rep.count("composition triangles decided on objective operators (listed)")
+                if d2 is None:
+                    rep.ok("convert<%s,%s> = convert<%s,%s> o convert<%s,%s> on every %s operator obtained from arbitrary %s (N=%d)"
+                           % (b, a, b, c, c, a, a, p_, N))
+                else:
+                    rep.fail(key + "#N%d" % N, "N=%d: converting %s (built from arbitrary %s) to %s directly and through %s disagree in component %d: "
+                             "%r through %s, %r directly" % (N, a, p_, b, c, d2[0], d2[1], c, d2[2]))
+            else:
+                rep.fail(key + "#N%d" % N, "N=%d: converting %s to %s directly and through %s disagree in component %d: %r through %s, %r directly"
+                         % (N, a, b, c, d[0], d[1], c, d[2]))
+    rep.extra["triangles"] = ["%s->%s->%s" % t for t in tri]
+    rep.extra["triangles_not_decided (eigen-decomposition: DT_DELOG)"] = undecided
+    rep.floor("composition triangles", 20)
